@@ -13,9 +13,11 @@
 
    What comes from the source (Gen/Skeleton.v, through the functions at the
    end of this file): execute()'s handler table, whether sync() sits outside
-   its try, what _run_mp's BrokenProcessPool handler raises, which stop()
-   calls are in _run_mp's finally.  The step function consults these
-   [facts]; nothing about them is hard-wired.
+   its try, what _run_mp's two BrokenProcessPool handlers raise, which stop()
+   calls are in _run_mp's finally and whether that finally first force-frees
+   the store lock (the repair of D8).  The step function consults these
+   [facts]; nothing about them is hard-wired ([f_fin_free = false] is the
+   code before the repair, kept as regression corpus in Props/C10.v).
 
    Definitions only - no proofs in this file. *)
 From Coq Require Import String List Bool Arith.
